@@ -108,7 +108,8 @@ _CTX: list[Ctx] = []
 
 def ctx() -> Ctx:
     if not _CTX:
-        _CTX.append(Ctx())  # permissive default context (no forking bound prefix)
+        # a symbolic branch outside an exploration would silently follow one side only
+        raise Inconclusive("symbolic branch outside an exploration (wrap the run in symx.explore)")
     return _CTX[-1]
 
 
